@@ -1954,3 +1954,268 @@ Proof.
   split; [intros H; vm_compute in H; discriminate|].
   vm_compute. now left.
 Qed.
+
+(* ------------------------------------------------------------------------------------------ *)
+(* copy_subdir of *every* written page (not only of the index pages) *)
+Lemma fold_copy_items_one root loc l : forall st item es sub,
+  inv root st -> In item l -> ~ made (loc ++ [item]) st ->
+  dir_at loc root = Some es -> find_entry item es = Some (Dir item sub) ->
+  forall p, In p (all_files (Dir item sub)) ->
+            has (loc ++ p) (fold_left (copy_item root loc) l st).
+Proof.
+  induction l as [|i0 l IH]; intros st item es sub Hinv Hi Hm Hd Hf p Hp; [destruct Hi|].
+  cbn [fold_left]. destruct Hi as [->|Hi].
+  - apply (grows_fold (copy_item root loc)); [intros; apply grows_copy_item|].
+    destruct (dir_exists (loc ++ [item]) st) eqn:Hex.
+    + apply dir_exists_iff in Hex as [Hex|Hex]; [contradiction|].
+      apply grows_copy_item. eapply (Hinv _ Hex loc item); eauto.
+    + eapply copy_item_copies; eauto.
+  - eapply IH; eauto.
+    + now apply inv_copy_item.
+    + intros Hmade. now apply made_copy_item in Hmade.
+Qed.
+
+Lemma write_node_copies_one root st n item es sub :
+  inv root st -> In item (n_copy n) -> ~ made (n_loc n ++ [item]) st ->
+  dir_at (n_loc n) root = Some es -> find_entry item es = Some (Dir item sub) ->
+  forall p, In p (all_files (Dir item sub)) -> has (n_loc n ++ p) (write_node root st n).
+Proof.
+  intros Hinv Hi Hm Hd Hf p Hp. unfold write_node.
+  apply (grows_fold (copy_file (n_loc n))); [intros; apply grows_copy_file|].
+  set (st1 := if is_index_file (n_file n) then mkdir (n_loc n) st else st).
+  assert (I1 : inv root st1) by (unfold st1; destruct (is_index_file _); auto using inv_mkdir).
+  assert (M1 : forall q, made q st1 -> made q st \/ q = n_loc n).
+  { unfold st1. destruct (is_index_file _); auto. intros q. apply made_mkdir. }
+  eapply fold_copy_items_one; eauto.
+  - now apply inv_add_file.
+  - intros Hmade. apply M1 in Hmade as [Hmade|Hmade]; [contradiction|].
+    apply (f_equal (@length _)) in Hmade. rewrite app_length in Hmade. simpl in Hmade. lia.
+Qed.
+
+Lemma write_nodes_copied root ns : forall st n item es sub,
+  inv root st -> In n ns -> In item (n_copy n) -> ~ made (n_loc n ++ [item]) st ->
+  (forall m, In m ns -> n_loc m <> n_loc n ++ [item]) ->
+  dir_at (n_loc n) root = Some es -> find_entry item es = Some (Dir item sub) ->
+  forall p, In p (all_files (Dir item sub)) -> has (n_loc n ++ p) (write_nodes root ns st).
+Proof.
+  induction ns as [|m ns IH]; intros st n item es sub Hinv Hn Hi Hm Hno Hd Hf p Hp;
+    [destruct Hn|].
+  unfold write_nodes. cbn [fold_left].
+  destruct (write_node_inv0 root st m Hinv) as (I1 & M1).
+  destruct Hn as [->|Hn].
+  - apply (grows_write_nodes root ns). eapply write_node_copies_one; eauto.
+  - eapply IH; eauto.
+    + intros Hmade. apply M1 in Hmade as [Hmade|Hmade]; [contradiction|].
+      eapply Hno; [left; reflexivity|]. auto.
+    + intros m' Hm'. apply Hno. now right.
+Qed.
+
+(* every written page: if no page is written into the named directory itself, the directory
+   is completely present beside the page at the end *)
+Theorem copy_subdir_every_page root r n item es sub :
+  In n (res_nodes r) -> In item (n_copy n) ->
+  (forall m, In m (res_nodes r) -> n_loc m <> n_loc n ++ [item]) ->
+  dir_at (n_loc n) root = Some es -> find_entry item es = Some (Dir item sub) ->
+  forall p, In p (all_files (Dir item sub)) -> has (n_loc n ++ p) (writeout root r).
+Proof.
+  intros Hn Hi Hno Hd Hf p Hp. unfold writeout.
+  eapply write_nodes_copied; eauto.
+  - intros q [H|[]]; discriminate.
+  - intros [H|[]]. injection H as H. destruct (n_loc n); discriminate.
+Qed.
+
+(* where the nodes of a tree lie: below a chain of directories with a titled index.md *)
+Definition locs_at (proj : list str) (e : entry) : Prop :=
+  forall d es, e = Dir d es -> forall pc loc m,
+    In m (res_nodes (gpt proj pc loc e)) ->
+    exists r es_r, n_loc m = loc ++ r /\ dir_at r es = Some es_r /\ titled_index es_r <> None.
+
+Lemma locs_all proj e : locs_at proj e.
+Proof.
+  induction e as [|d0 es0 IH] using entry_ind'; intros d es E pc loc m Hm; [discriminate|].
+  injection E as -> ->.
+  rewrite gpt_dir in Hm. destruct (titled_index es) as [[ord cp]|] eqn:TI; [|destruct Hm].
+  cbv zeta in Hm.
+  set (copy := eff_copy proj cp) in *.
+  set (sub := map (fun x => (ename x, gpt proj (Some copy) (loc ++ [ename x]) x)) es) in *.
+  set (M := merged (ordered_of ord) (listing es)) in *.
+  destruct (v_err _); [destruct Hm|].
+  unfold res_nodes in Hm. rewrite preorder_node in Hm. destruct Hm as [<-|Hm].
+  - exists [], es. simpl. rewrite app_nil_r, TI. repeat split; auto. discriminate.
+  - apply in_flat_map in Hm as (x & Hx & Hm).
+    apply in_v_subs_inv, in_map_iff in Hx as (n & Hv & Hn).
+    destruct (visible n) eqn:Hvis.
+    2:{ destruct (visit_name_invis proj pc loc es sub n Hvis) as [X|X]; congruence. }
+    rewrite visit_name_vis in Hv by auto.
+    unfold sub in Hv. rewrite assoc_map_find in Hv.
+    destruct (find_entry n es) as [y|] eqn:FE; [|discriminate].
+    pose proof (find_entry_name _ _ _ FE) as [En Hin].
+    destruct y as [f t o c|dn des]; simpl in En; subst.
+    + destruct (is_md n); [|discriminate]. destruct t; [|discriminate].
+      injection Hv as <-. simpl in Hm. destruct Hm as [<-|[]].
+      exists [], es. simpl. rewrite app_nil_r, TI. repeat split; auto. discriminate.
+    + simpl in Hv. destruct (in_opt n pc); [discriminate|].
+      destruct (gpt proj (Some copy) (loc ++ [n]) (Dir n des)) as [| |ndx] eqn:G; try discriminate.
+      injection Hv as <-.
+      rewrite Forall_forall in IH.
+      destruct (IH _ Hin n des eq_refl (Some copy) (loc ++ [n]) m) as (r & es_r & E1 & E2 & E3).
+      { rewrite G. exact Hm. }
+      exists (n :: r), es_r. rewrite E1, <- app_assoc. simpl. rewrite FE. auto.
+Qed.
+
+Lemma spec_copydirs_dir proj loc d es :
+  spec_copydirs proj loc (Dir d es) =
+  match titled_index es with
+  | None => []
+  | Some (_, cp) =>
+    copy_items es loc true (eff_copy proj cp)
+      ++ flat_map (fun x => match x with
+                            | File n true _ cpx =>
+                              if md_name n && negb (str_eqb n idx)
+                              then copy_items es loc false (eff_copy proj cpx) else []
+                            | _ => []
+                            end) es
+      ++ flat_map (fun x => match x with
+                            | Dir n _ => if visible n then spec_copydirs proj (loc ++ [n]) x
+                                         else []
+                            | File _ _ _ _ => []
+                            end) es
+  end.
+Proof. reflexivity. Qed.
+
+Lemma copy_items_in es loc b items p :
+  In p (copy_items es loc b items) ->
+  exists item sub p', In item items /\ find_entry item es = Some (Dir item sub) /\
+    In p' (all_files (Dir item sub)) /\ p = loc ++ p' /\
+    (b = true \/ has_titled_index (Dir item sub) = false).
+Proof.
+  unfold copy_items. intros H. apply in_flat_map in H as (item & Hi & H).
+  destruct (find_entry item es) as [[? ? ? ?|n sub]|] eqn:FE; try destruct H.
+  pose proof (find_entry_name _ _ _ FE) as [En _]. simpl in En. subst n.
+  destruct (b || negb (has_titled_index (Dir item sub))) eqn:C; [|destruct H].
+  apply in_map_iff in H as (p' & <- & Hp').
+  exists item, sub, p'. repeat split; auto.
+  apply orb_true_iff in C as [C|C]; auto. right. now apply negb_true_iff.
+Qed.
+
+Definition copydirs_at (proj : list str) (root : list entry) (e : entry) : Prop :=
+  forall d es, e = Dir d es -> forall pc loc,
+    wf_tree e = true -> regular proj pc e = true -> gpt proj pc loc e <> RErr ->
+    dir_at loc root = Some es ->
+    forall p, In p (spec_copydirs proj loc e) ->
+    exists n item es' sub p',
+      In n (res_nodes (gpt proj pc loc e)) /\ In item (n_copy n) /\
+      dir_at (n_loc n) root = Some es' /\ find_entry item es' = Some (Dir item sub) /\
+      In p' (all_files (Dir item sub)) /\ p = n_loc n ++ p' /\
+      (n_file n = idx \/ has_titled_index (Dir item sub) = false).
+
+Lemma copydirs_all proj root e : copydirs_at proj root e.
+Proof.
+  induction e as [|d0 es0 IH] using entry_ind';
+    intros d es E pc loc Hwf Hreg Hne Hroot p Hp; [discriminate|].
+  injection E as -> ->.
+  rewrite spec_copydirs_dir in Hp. rewrite gpt_dir in *. simpl in Hreg.
+  destruct (titled_index es) as [[ord cp]|] eqn:TI; [|destruct Hp].
+  cbv zeta in *.
+  set (copy := eff_copy proj cp) in *.
+  set (sub := map (fun x => (ename x, gpt proj (Some copy) (loc ++ [ename x]) x)) es) in *.
+  set (M := merged (ordered_of ord) (listing es)) in *.
+  destruct (v_err (map (visit_name proj pc loc es sub) M)) eqn:VE; [congruence|].
+  apply wf_dir in Hwf as [Hnd Hwf].
+  unfold res_nodes. rewrite preorder_node.
+  apply in_app_iff in Hp as [Hp|Hp]; [|apply in_app_iff in Hp as [Hp|Hp]].
+  - (* the index page *)
+    apply copy_items_in in Hp as (item & sb & p' & Hi & Hf & Hp' & -> & _).
+    eexists. exists item, es, sb, p'. split; [left; reflexivity|]. simpl. repeat split; auto.
+  - (* another page of this directory *)
+    apply in_flat_map in Hp as (x & Hin & Hp).
+    destruct x as [f t o cpx|]; [|destruct Hp]. destruct t; [|destruct Hp].
+    destruct (md_name f && negb (str_eqb f idx)) eqn:C; [|destruct Hp].
+    apply andb_true_iff in C as [Hmd Hfi]. apply negb_true_iff, str_eqb_neq in Hfi.
+    pose proof (md_name_is_visible _ Hmd) as Hvis.
+    rewrite (md_name_visible _ Hvis) in Hmd.
+    apply copy_items_in in Hp as (item & sb & p' & Hi & Hf & Hp' & -> & [X|Hti]); [discriminate|].
+    assert (HM : In f M).
+    { apply in_merged; auto. change f with (ename (File f true o cpx)). now apply in_map. }
+    exists (leaf proj loc f o cpx), item, es, sb, p'.
+    split.
+    { right. apply in_flat_map. exists (leaf proj loc f o cpx). split; [|now left].
+      apply in_v_subs. apply in_map_iff. exists f. split; auto.
+      rewrite visit_name_vis by auto.
+      pose proof (find_entry_in es _ Hnd Hin) as FE. simpl in FE. now rewrite FE, Hmd. }
+    simpl. repeat split; auto.
+  - (* inside a sub-directory *)
+    apply in_flat_map in Hp as (x & Hin & Hp).
+    destruct x as [|n des]; [destruct Hp|].
+    destruct (visible n) eqn:Hvis; [|destruct Hp].
+    assert (TD : has_titled_index (Dir n des) = true).
+    { simpl. rewrite spec_copydirs_dir in Hp. destruct (titled_index des); auto; destruct Hp. }
+    pose proof (proj1 (forallb_forall _ _) Hreg _ Hin) as Hrx. simpl in Hrx.
+    change (match titled_index des with Some _ => true | None => false end)
+      with (has_titled_index (Dir n des)) in Hrx.
+    rewrite TD in Hrx. simpl in Hrx.
+    apply andb_true_iff in Hrx as [Hr1 Hr2]. apply andb_true_iff in Hr1 as [Hpc _].
+    apply negb_true_iff in Hpc.
+    pose proof (find_entry_in es _ Hnd Hin) as FE. simpl in FE.
+    assert (Hni : n <> idx).
+    { intros ->. unfold titled_index in TI. rewrite FE in TI. discriminate. }
+    assert (HM : In n M).
+    { apply in_merged; auto. change n with (ename (Dir n des)). now apply in_map. }
+    assert (HV : In (visit_name proj pc loc es sub n) (map (visit_name proj pc loc es sub) M))
+      by now apply in_map.
+    pose proof (v_err_false _ _ VE HV) as Hv.
+    rewrite visit_name_vis in HV, Hv by auto. rewrite FE, Hpc in HV, Hv.
+    unfold sub in HV, Hv. rewrite assoc_map_find, FE in HV, Hv. simpl in HV, Hv.
+    rewrite Forall_forall in IH.
+    assert (G : gpt proj (Some copy) (loc ++ [n]) (Dir n des) <> RErr).
+    { intros G. rewrite G in Hv. congruence. }
+    assert (Hroot' : dir_at (loc ++ [n]) root = Some des).
+    { rewrite dir_at_app, Hroot. simpl. now rewrite FE. }
+    destruct (IH _ Hin n des eq_refl (Some copy) (loc ++ [n]) (Hwf _ Hin) Hr2 G Hroot' p Hp)
+      as (nd & item & es' & sb & p' & Hnd' & Rest).
+    exists nd, item, es', sb, p'. split; [|exact Rest].
+    destruct (gpt proj (Some copy) (loc ++ [n]) (Dir n des)) as [| |ndx];
+      [destruct Hnd'|destruct Hnd'|].
+    right. apply in_flat_map. exists ndx. split; [apply in_v_subs; exact HV|exact Hnd'].
+Qed.
+
+(* Model against Spec: everything the Spec's spec_copydirs demands is there at the end *)
+Theorem files_copydirs_spec proj es p :
+  wf_tree (Dir [] es) = true -> regular proj None (Dir [] es) = true ->
+  page_tree proj es <> RErr ->
+  In p (spec_copydirs proj [] (Dir [] es)) ->
+  exists o, file_at p (f_files (writeout es (page_tree proj es))) = Some o /\
+            (o = Copy p \/ exists src, o = Page src).
+Proof.
+  intros Hwf Hr Hne Hp.
+  destruct (copydirs_all proj es (Dir [] es) [] es eq_refl None [] Hwf Hr Hne eq_refl p Hp)
+    as (n & item & es' & sb & p' & Hn & Hi & Hd & Hf & Hp' & -> & Hor).
+  assert (X : has (n_loc n ++ p') (writeout es (page_tree proj es))).
+  { destruct Hor as [Hidx|Hti].
+    - unfold page_tree in *.
+      destruct (gpt proj None [] (Dir [] es)) as [| |nd] eqn:G; [destruct Hn|destruct Hn|].
+      eapply (copy_subdir_copied_run proj es nd n); eauto.
+    - eapply copy_subdir_every_page; eauto.
+      intros m Hm Hloc.
+      destruct (locs_all proj (Dir [] es) [] es eq_refl None [] m Hm) as (r & es_r & E1 & E2 & E3).
+      simpl in E1. rewrite E1 in Hloc. subst r.
+      rewrite dir_at_app, Hd in E2. simpl in E2. rewrite Hf in E2. injection E2 as <-.
+      simpl in Hti. destruct (titled_index sb); [discriminate|]. now apply E3. }
+  apply file_at_has in X as [o Ho]. exists o. split; auto.
+  exact (file_at_origin _ _ _ (origins_writeout es (page_tree proj es)) Ho).
+Qed.
+
+Definition ex_leafcopy : list entry :=
+  [T_ "index.md"; File (s "a.md") true [] [s "assets"]; File (s "b.md") true [] [s "assets"];
+   Dir (s "assets") [File (s "pic.png") false [] []; Dir (s "deep") [File (s ".keep") false [] []]]].
+
+Example ex_leafcopy_ok :
+  wf_tree (Dir [] ex_leafcopy) = true /\ regular [] None (Dir [] ex_leafcopy) = true /\
+  page_tree [] ex_leafcopy <> RErr /\
+  spec_copydirs [] [] (Dir [] ex_leafcopy) =
+    [[s "assets"; s "pic.png"]; [s "assets"; s "deep"; s ".keep"];
+     [s "assets"; s "pic.png"]; [s "assets"; s "deep"; s ".keep"]] /\
+  file_at [s "assets"; s "deep"; s ".keep"]
+          (f_files (writeout ex_leafcopy (page_tree [] ex_leafcopy)))
+  = Some (Copy [s "assets"; s "deep"; s ".keep"]).
+Proof. repeat split; try reflexivity. intros H. vm_compute in H. discriminate. Qed.
